@@ -39,6 +39,9 @@ def extra(ctx):
     cs = lib.run_go(ctx, "multiplex", "TestVerifC13CloseSweep", timeout=900, tag="close_sweep")
     lib.collect_go(ctx, cs)
     ctx.log("close sweep: %d closes on healthy sessions, each with its closing frame decoded from the wire" % cs["stats"].get("closes", 0))
+    cb = lib.run_go(ctx, "multiplex", "TestVerifC13CloseBulk", timeout=1200, tag="close_bulk")
+    lib.collect_go(ctx, cb)
+    ctx.log("close bulk: %d closes of fresh streams (0-4 writes each), every one must hand its closing frame to the connection" % cb["stats"].get("bulk_closes", 0))
     lf = lib.run_go(ctx, "multiplex", "TestVerifC13LateFrame", timeout=600, tag="late_frame")
     lib.collect_go(ctx, lf)
     ctx.log("late frames for closed streams: %d scenarios, %d violations" % (lf["evaluations"], len(lf.get("violations", []))))
@@ -52,7 +55,7 @@ def extra(ctx):
     lib.collect_go(ctx, orc)
     ctx.log("open race: StreamOpen.tla %d states; %d rounds, %d streams opened by 2-32 goroutines at once, %d violations" % (
         so.distinct, orc["stats"].get("open_race_rounds", 0), orc["stats"].get("streams_opened", 0), len(orc.get("violations", []))))
-    return {"evaluations": g["evaluations"] + s["evaluations"] + cs["evaluations"] + lf["evaluations"] + orc["evaluations"], "open_race_streams": orc["stats"].get("streams_opened", 0), "close_sweep_closes": cs["stats"].get("closes", 0), "distinct_nontrivial": g["distinct_nontrivial"] + s["distinct_nontrivial"],
+    return {"evaluations": g["evaluations"] + s["evaluations"] + cs["evaluations"] + lf["evaluations"] + orc["evaluations"], "open_race_streams": orc["stats"].get("streams_opened", 0), "close_sweep_closes": cs["stats"].get("closes", 0), "close_bulk_closes": cb["stats"].get("bulk_closes", 0), "distinct_nontrivial": g["distinct_nontrivial"] + s["distinct_nontrivial"],
             "samples": g["samples"][:1] + s["samples"][:1], "traces": s["evaluations"] if ok else 0,
             "wire_frames_validated": s["stats"].get("wire_frames", 0), "gate_rounds": g["stats"].get("gate_rounds", 0),
             "gate_second_sender_reached": g["stats"].get("second_sender_reached_gate", 0)}
